@@ -640,6 +640,11 @@ def _measured(ctx, which, case, sandbox, report, files, inputs, n_rt_before):
         return
     if kind in ('base',):
         ctx.count('outside_quantifier_base_exception')
+        # (whether such an exception is handed on to the caller or recorded like the others is not fixed by the statement; that the
+        # student's code failed must not simply vanish, though)
+        if raised is None and unwrap(sbx.get_exception()) is None and not runtime_feedbacks(report)[n_rt_before:]:
+            ctx.violation('C04|failure-vanished|base-exception|%s' % key_tail, strip(case),
+                          'the call returned normally, get_exception() is None and no runtime feedback was attached; reference: %s' % safe_repr(ref.exc))
         if diffs:
             snap.restore(); sandbox._current_patches.clear(); sandbox._current_stdout.clear()
         return
